@@ -223,6 +223,29 @@ int main()
         auto r = sb.INTERNAL_invoke_with_func_name<int(int)>(t[2].c_str(), (int)parse_dec(t[3]));
         return "ok " + std::to_string(r.UNSAFE_unverified());
       }
+      if (t[0] == "irecr" && t.size() == 5) {
+        // one sandbox OBJECT, two incarnations bound to (possibly) different libraries: by-name invocation and function address
+        // in the second incarnation must come from ITS library (nothing cached for the first one may be served)
+        static Sb scratch;
+        int l1 = atoi(t[1].c_str()), l2 = atoi(t[2].c_str()); int v = (int)parse_dec(t[4]);
+        auto probe = [&]() -> std::string {
+          auto r = scratch.INTERNAL_invoke_with_func_name<int(int)>(t[3].c_str(), v);
+          auto f = scratch.INTERNAL_get_sandbox_function_name<int(int)>(t[3].c_str());
+          auto p = reinterpret_cast<const char*>(f.UNSAFE_unverified());
+          std::string where = "other";
+          for (auto& L : g_libs) if (p > L.desc.data() && p < L.desc.data() + L.desc.size()) where = std::string(L.libname) + "." + L.fns[(size_t)(p - L.desc.data()) - 1].name;
+          auto r2 = scratch.INTERNAL_invoke_with_func_name<int(int)>(t[3].c_str(), v);
+          return std::to_string(r.UNSAFE_unverified()) + " " + where + " " + std::to_string(r2.UNSAFE_unverified());
+        };
+        struct Cleanup { ~Cleanup() { scratch.get_sandbox_impl()->force_release(); } } cleanup;   // an abort in the middle must not leak the address slot
+        scratch.create_sandbox(&g_libs[l1]);
+        std::string a = probe();
+        scratch.destroy_sandbox();
+        scratch.create_sandbox(&g_libs[l2]);
+        std::string b = probe();
+        scratch.destroy_sandbox();
+        return "ok " + a + " | " + b;
+      }
       if (t[0] == "ifnaddr" && t.size() == 3) {
         Sb& sb = g_sb[atoi(t[1].c_str())];
         auto f = sb.INTERNAL_get_sandbox_function_name<int(int)>(t[2].c_str());
